@@ -228,6 +228,67 @@ Theorem two_part_no_ballots : forall alts, is_2_part alts [] = None.
 Proof. exact Proofs.Approval.two_part_no_ballots. Qed.
 Print Assumptions two_part_no_ballots.
 
+(* ---- the six recognisers built on the solver (mirrored, solver as a parameter): relative to a solver that
+   answers like the verified reference and returns column orders accepted by the verified checker — which is
+   what the correspondence establishes for solve_consecutive_ones — each recogniser is sound, complete and
+   returns a witness accepted by the checker of its domain ---- *)
+Definition solver_ok (solve : matrix -> nat -> option (list nat)) : Prop :=
+  forall M nc, match solve M nc with
+               | Some perm => c1p_check M nc perm = true
+               | None => c1p_decide M nc = false
+               end.
+
+Theorem recog_ci : forall solve, solver_ok solve -> forall alts ballots,
+  match is_candidate_interval solve alts ballots with
+  | Some order => ci_check alts ballots order = true
+  | None => ~ CI alts ballots
+  end.
+Proof. exact Proofs.Approval.recog_ci. Qed.
+Print Assumptions recog_ci.
+Theorem recog_cei : forall solve, solver_ok solve -> forall alts ballots,
+  match is_candidate_extremal_interval solve alts ballots with
+  | Some order => cei_check alts ballots order = true
+  | None => ~ CEI alts ballots
+  end.
+Proof. exact Proofs.Approval.recog_cei. Qed.
+Print Assumptions recog_cei.
+Theorem recog_vi : forall solve, solver_ok solve -> forall alts ballots,
+  match is_voter_interval solve alts ballots with
+  | Some border => vi_check alts ballots border = true
+  | None => ~ VI alts ballots
+  end.
+Proof. exact Proofs.Approval.recog_vi. Qed.
+Print Assumptions recog_vi.
+Theorem recog_vei : forall solve, solver_ok solve -> forall alts ballots,
+  match is_voter_extremal_interval solve alts ballots with
+  | Some border => vei_check alts ballots border = true
+  | None => ~ VEI alts ballots
+  end.
+Proof. exact Proofs.Approval.recog_vei. Qed.
+Print Assumptions recog_vei.
+Theorem recog_wsc : forall solve, solver_ok solve -> forall alts ballots,
+  match is_weakly_single_crossing solve alts ballots with
+  | Some border => wsc_check alts ballots border = true
+  | None => ~ WSC alts ballots
+  end.
+Proof. exact Proofs.Approval.recog_wsc. Qed.
+Print Assumptions recog_wsc.
+Theorem recog_de : forall solve, solver_ok solve -> forall alts ballots,
+  Forall (fun b => incl b alts) ballots ->
+  match is_dichotomous_euclidean solve alts ballots with
+  | Some w => de_check alts ballots (fst w) (snd w) = true
+  | None => ~ DE alts ballots
+  end.
+Proof. exact Proofs.Approval.recog_de. Qed.
+Print Assumptions recog_de.
+
+(* the hypothesis solver_ok is satisfiable: the reference enumeration is such a solver *)
+Definition ref_solve (M : matrix) (nc : nat) : option (list nat) :=
+  find (fun perm => forallb (row_contig perm) M) (perms (seq 0 nc)).
+Theorem ref_solve_ok : solver_ok ref_solve.
+Proof. exact Proofs.Approval.ref_solve_ok. Qed.
+Print Assumptions ref_solve_ok.
+
 (* ---- non-vacuity ---- *)
 Example c1p_nonvacuous :
   c1p_decide [[true;false;true;false];[false;true;true;false];[false;false;false;false];[true;false;true;false]] 4 = true /\
